@@ -2,6 +2,7 @@
 import itertools
 from vlib import *
 import pgenlib
+import c09opts
 
 ID = "C09"
 COQ_FILES = ["Common/Corr.v", "Model/Forms.v", "Proofs/Forms.v", "Props/C09.v"]
@@ -60,7 +61,11 @@ def run(ctx):
                 "thorough: all eight values of the bit set); x every assignment of an input form "
                 "(source / AST / parser.Result / parser.Result without AST / FileDescriptorProto / FileDescriptorProto with source info attached / parser.Result without AST "
                 "whose descriptor has source info attached) per file for programs of <= %d files, "
-                "%d random assignments otherwise; the first %d programs get the full matrix: all eight modes x every uniform assignment (all files in the same form) "
+                "%d random assignments otherwise; plus option-saturated programs (custom and standard options - scalar, string, message literal, dotted "
+                "paths of 2-3 name parts, repeated - on every option-bearing element kind: file, message (top, nested twice, group body), field (plain, nested, "
+                "oneof member, map, group), oneof (top, nested), extension range (single, multi-range statement, nested), enum (top, nested twice), enum value, "
+                "extension at file and message scope, service, method; definitions imported or in the same file; proto2 / proto3 / editions): all positions at once, "
+                "exactly one position, random subsets, x every uniform assignment of the 7 forms + mixed ones; the first %d programs get the full matrix: all eight modes x every uniform assignment (all files in the same form) "
                 "x a few mixed ones; every case compiles twice on the same supplied objects (some with 3 concurrent compilers); "
                 "one evaluation = one (program, mode, assignment); non-trivial = at least one file is not given as source. Source info is demanded by the oracle for "
                 "every form with an AST AND for every form whose descriptor carries it (kept as it is, equal to the all-source compilation in the same mode) in every mode but none"
@@ -92,6 +97,32 @@ def run(ctx):
                 c["concurrent"] = 3
                 c["par"] = 2
             cases.append((pi, broken, deps, c))
+    # ---- option-saturated programs (c09opts): custom options on every option-bearing element kind, so that
+    # every form goes through option interpretation on its own defensive copy for every kind
+    oprogs = c09opts.programs(rng, ctx.budget(8, None), ctx.budget(4, 40))
+    opt_labels = {}
+    for k, (label, p) in enumerate(oprogs):
+        pi = 100000 + k
+        opt_labels[pi] = label
+        n = len(p.order)
+        if ctx.tier == "thorough":
+            modes = modes_all
+            asgs = list(itertools.product(FORMS, repeat=n))
+        else:
+            modes = [k % 2, rng.choice(MODES_NO_STANDARD) if k % 4 < 2 else rng.choice(MODES_STANDARD_PLUS)]
+            asgs = [tuple([f] * n) for f in FORMS]
+            if n > 1:
+                asgs += [tuple(rng.choice(FORMS) for _ in range(n)) for _ in range(4)]
+            asgs = list(dict.fromkeys(asgs))
+        deps = deps_of(p)
+        for mode in modes:
+            for asg in asgs:
+                c = {"files": p.files, "order": p.order, "forms": dict(zip(p.order, asg)), "mode": mode, "rounds": 2}
+                if rng.chance(1, 12):
+                    c["concurrent"] = 3
+                    c["par"] = 2
+                cases.append((pi, False, deps, c))
+    ctx.extra["option_saturated_programs"] = dict((l, sum(1 for x in opt_labels.values() if x == l)) for l in set(opt_labels.values()))
     race = ctx.tier == "thorough"
     outs = ctx.impl("forms", [c for _, _, _, c in cases])
     if race:
@@ -123,7 +154,9 @@ def run(ctx):
                           dict(rep, changed={k: ch[k] for k in ch if k in ("file", "form", "what")}))
         errs = o["errs"]
         ok = not any(errs)
-        klass = ("accepted" if ok else "rejected") + ("-concurrent" if c.get("concurrent") else "")
+        klass = ("accepted" if ok else "rejected") + ("-concurrent" if c.get("concurrent") else "") + ("-options-everywhere" if pi >= 100000 else "")
+        if pi >= 100000 and not ok and all(f == "source" for f in asg):
+            stats["option_saturated_rejected_from_source"] = stats.get("option_saturated_rejected_from_source", 0) + 1
         ctx.count((pi, c["mode"], asg, c.get("concurrent", 1)), nontriv, klass)
         stats["accepted" if ok else "rejected"] += 1
         stats["by_mode"][c["mode"]] = stats["by_mode"].get(c["mode"], 0) + 1
